@@ -395,3 +395,14 @@ Theorem C05_pin_expr_configured_before_use_all_passes_partial : forall kf p,
   pins_tracked kf p 2 = true -> forall n, pcbu (run_sketch kf p n) = true.
 Proof. exact pins_cbu_all_passes. Qed.
 Print Assumptions C05_pin_expr_configured_before_use_all_passes_partial.
+
+(* where the device name in the key is NOT needed: in a stretch of emitted text without assignments (the hoisted block
+   at the top of setup()) the same text has the same value, so with (text, mode) alone as key every request is still
+   honoured by an executed pinMode on its numeric pin - the name matters only across assignments (in-place
+   configuration of prologue Led / RGBLed / Ultrasonic declarations), which is where C05_text_only_key_refuted lives *)
+Theorem C05_text_key_suffices_without_assignments : forall l seen r cfg,
+  noset l = true -> text_keyed l = true ->
+  (forall e m, In (0, e, m) seen -> In (peval r e, m) cfg) ->
+  forall k e m, In (AReq k e m) l -> In (peval r e, m) (cfg_of cfg (fw seen r l)).
+Proof. exact text_key_honours_requests. Qed.
+Print Assumptions C05_text_key_suffices_without_assignments.
